@@ -253,6 +253,7 @@ impl Property for C12 {
             5 => bytes32_near().prop_map(|b| Case::Decode { b }),
             1 => gen::bytes(0..=80usize).prop_map(|b| Case::Slice { bytes: HexBytes(b) }),
             2 => (gen::fq_special(), gen::fq_special()).prop_map(|(r1, r2)| Case::Hash { r1, r2 }),
+            1 => (gen::r0_targeted(), prop_oneof![Just(Num(N::from(0u32))), gen::r0_targeted()]).prop_map(|(r1, r2)| Case::Hash { r1, r2 }),
             2 => (proptest::collection::vec(recipe::recipe_small(), 2..=4), proptest::collection::vec(ginstr(), 1..=max_prog)).prop_map(|(regs, prog)| Case::Program { regs, prog }),
         ]
         .boxed()
